@@ -424,6 +424,86 @@ def run (j : Json) : Except String Json := do
         Json.arr #[jNat u, jNat v, jERat (tables.1 u v)]).toArray))])
 end DrvES
 
+/-! ### discrete-time simulators (C12) -/
+namespace DrvD
+open Discrete
+
+def run (j : Json) : Except String Json := do
+  let n ← getNat (← fld j "n")
+  let adj ← getList (getList getNat) (← fld j "adj")
+  let tmin ← getRat (← fld j "tmin")
+  let tmax ← getERat (← fld j "tmax")
+  let infs ← getList getNat (← fld j "infs")
+  let recs ← getList getNat (← fld j "recs")
+  let contacts ← getList (fun e => do
+    match ← getArr e with
+    | [u, v] => pure ((← getNat u), (← getNat v))
+    | _ => .error "bad contact") (← fld j "contacts")
+  let recSteps ← (match fldOpt j "recsteps" with
+    | none => pure none
+    | some r => do
+      let l ← getList getNat r
+      pure (some (listFn l 1)))
+  let P : DParams := { nodes := List.range n, nbrs := listFn adj [], rule := fun u v => contacts.contains (u, v),
+                       recSteps := recSteps, tmin := tmin, tmax := tmax }
+  let s := Discrete.run P infs recs 10000
+  let holds ← (match fldOpt j "impl_inftime" with
+    | some it => do
+      let l ← getList (fun e => do
+        match ← getArr e with
+        | [v, t] => pure ((← getNat v), (← getRat t))
+        | _ => .error "bad inftime") it
+      pure (Json.bool (isBFS P infs recs l))
+    | none => pure Json.null)
+  pure (Json.mkObj [("ok", Json.bool true), ("times", jArr jRat s.t.reverse), ("S", jArr jInt s.S.reverse),
+    ("I", jArr jInt s.I.reverse), ("R", jArr jInt s.R.reverse),
+    ("inftime", jArr (fun e => Json.arr #[jNat e.1, jRat e.2]) s.infTime),
+    ("infectors", jArr (fun e => Json.arr #[jNat e.1, jRat e.2.1, jArr jNat e.2.2]) s.infectors),
+    ("bfs", jArr (fun v => match bfs P infs recs v with | some d => jNat d | none => Json.null) P.nodes),
+    ("isBFS", holds)])
+
+def reedfrost (j : Json) : Except String Json := do
+  let n ← getNat (← fld j "n")
+  let adj ← getList (getList getNat) (← fld j "adj")
+  let inf ← getList getNat (← fld j "inf")
+  let p ← getRat (← fld j "p")
+  let nodes := List.range n
+  pure (Json.mkObj [("ok", Json.bool true),
+    ("prob", jArr (fun v => jRat (infProb p (infNbrs nodes (listFn adj []) inf v))) nodes)])
+end DrvD
+
+/-! ### event-driven SIS with arbitrary delays (C13) -/
+namespace DrvSS
+open EventSIS
+
+def jChange (c : Change) : Json := Json.arr #[jRat c.1, jNat c.2.1, Json.bool c.2.2]
+
+def run (j : Json) : Except String Json := do
+  let n ← getNat (← fld j "n")
+  let adj ← getList (getList getNat) (← fld j "adj")
+  let tmin ← getRat (← fld j "tmin")
+  let tmax ← getRat (← fld j "tmax")
+  let infs ← getList getNat (← fld j "infs")
+  let durl ← getList (getList getRat) (← fld j "dur")
+  let dl ← getList (fun e => do
+    match ← getArr e with
+    | [u, v, per] => pure ((← getNat u), (← getNat v), (← getList (getList getRat) per))
+    | _ => .error "bad delay entry") (← fld j "delay")
+  let dur : Node → Nat → Rat := fun u k => let l := durl.getD u []; l.getD (k % l.length) 0
+  let delays : Node → Node → Nat → List Rat := fun u v k =>
+    match dl.find? (fun e => e.1 = u ∧ e.2.1 = v) with
+    | some e => e.2.2.getD (k % e.2.2.length) []
+    | none => []
+  let P : SSParams := { nodes := List.range n, nbrs := listFn adj [], dur := dur, delays := delays, tmin := tmin, tmax := tmax }
+  let fuel ← getNat (← fld j "fuel")
+  let s := EventSIS.run P infs fuel
+  let r := EventSIS.refRun P infs fuel
+  pure (Json.mkObj [("ok", Json.bool true),
+    ("log", jArr jChange s.log.reverse), ("trans", jArr DrvES.jTrans s.trans.reverse), ("queue_left", jNat s.queue.length),
+    ("ref_log", jArr jChange r.log.reverse), ("ref_trans", jArr DrvES.jTrans r.trans.reverse),
+    ("ref_left", jNat r.agenda.length), ("distinct", Json.bool (distinctTimes tmin r.seen))])
+end DrvSS
+
 def dispatch (j : Json) : Except String Json := do
   let op ← getStr (← fld j "op")
   match op with
@@ -438,6 +518,9 @@ def dispatch (j : Json) : Except String Json := do
   | "timeshift" => DrvHelp.timeshift j
   | "degree" => DrvHelp.degree j
   | "esir" => DrvES.run j
+  | "dsir" => DrvD.run j
+  | "esis" => DrvSS.run j
+  | "reedfrost" => DrvD.reedfrost j
   | _ => .error s!"unknown op {op}"
 
 def handle (line : String) : String :=
